@@ -412,12 +412,10 @@ def prop_oracle(c):
         if parts["sig"] is None:
             if got[0] == "ok":
                 return "the BIP's signing fails (zero nonce) but sign returned a signature"
-            if got[1] != "AssertionError":
-                return "zero nonce (the BIP's signing fails): sign raised %s instead of its AssertionError 'k_prime cannot be zero'" % got[1]
-            return None
+            return None             # refused: which exception class refuses is not part of the property
         if got[0] == "err":
-            if small and parts["e"] == 0 and got[1] == "TypeError":
-                return None         # hypothesis H: unreachable-at-scale deviation (only on the small curves)
+            if small and parts["e"] == 0:
+                return None         # hypothesis H: unreachable-at-scale deviation (only on the small curves), any refusal
             return "valid key/message/aux refused: %s: %s" % (got[1], got[2])
         if got[1] != parts["sig"]:
             return "signature differs from the BIP340 default signing algorithm's: got %s want %s" % (
@@ -443,8 +441,8 @@ def prop_oracle(c):
                 return "verify returned %r" % (got[1],)
             return None if want else "verify accepts a (public key, message, signature) triple that BIP340 verification rejects"
         if want:
-            if small and r_verify_e(cv, pk, msg, sig) == 0 and got[1] == "TypeError":
-                return None         # hypothesis H
+            if small and r_verify_e(cv, pk, msg, sig) == 0:
+                return None         # hypothesis H (any refusal)
             return "verify rejects a triple that BIP340 verification accepts: %s: %s" % (got[1], got[2])
         return None
     if op == "lift_x":
